@@ -393,6 +393,31 @@ func compareCache(drv *DriverPool, h cacheHist, res *Result, prop string, checkC
 			res.Violate(Violation{Sig: sig, Kind: "history", What: fmt.Sprintf("op %d (%s): cached compilation of doc %s returned %s", i, op, d, o.Out), Input: in})
 			return
 		}
+		// ---- Spec (C14): the first call of each setter takes effect, and lastingly; without an interval call the interval is
+		// half the effective TTL ----
+		{
+			expTTL, expInt, haveI := int64(5*60*int64(1e9)), int64(0), false
+			seenT := false
+			for _, q := range ops[:i+1] {
+				if q[0] == 'T' && !seenT {
+					expTTL, _ = strconv.ParseInt(q[1:], 10, 64)
+					seenT = true
+				}
+				if q[0] == 'I' && !haveI {
+					expInt, _ = strconv.ParseInt(q[1:], 10, 64)
+					haveI = true
+				}
+			}
+			if !haveI {
+				expInt = expTTL / 2
+			}
+			if o.TTL != expTTL || o.Interval != expInt {
+				res.Violate(Violation{Sig: "setter-first-call-not-effective|" + canonHist(h), Kind: "history",
+					What:  fmt.Sprintf("op %d (%s): configuration reads TTL %d / interval %d; the first setter calls so far give TTL %d / interval %d", i, op, o.TTL, o.Interval, expTTL, expInt),
+					Input: in})
+				return
+			}
+		}
 		// ---- correspondence with the Model ----
 		mism := ""
 		switch {
@@ -566,7 +591,7 @@ func cacheHistories(tier string, seed int64, withConfigs bool) []cacheHist {
 		// configuration matrix: every TTL × interval boundary value × setter order, followed by a short history
 		durs := []int64{-9223372036854775808, -1, 0, 1, 2, 3, nsMs, 5 * 60 * int64(1e9), 9223372036854775807}
 		for _, t := range durs {
-			for _, iv := range append([]int64{-7}, durs...) { // -7 = "interval not set"
+			for _, iv := range append([]int64{-7, 150 * int64(1e9)}, durs...) { // -7 = "interval not set"; 2m30s = half the default TTL
 				for order := 0; order < 2; order++ {
 					var pre []string
 					T, I := fmt.Sprintf("T%d", t), fmt.Sprintf("I%d", iv)
